@@ -64,6 +64,9 @@ type leafDef struct {
 	// file key path when the struct carries dials tags (nil for PlainCfg)
 	tagPath  []string
 	aliasTag string // alias for the last element of tagPath ("" = no alias)
+	// untagged leaves: the dialsalias text (Go camel case) and its words
+	aliasGo    string
+	aliasWords []string
 	// untagged: Go field names and their decoded words
 	goPath  []string
 	goWords [][]string
@@ -77,7 +80,7 @@ type leafDef struct {
 	set        func(cfg any, v value)
 }
 
-func (l *leafDef) hasAlias() bool { return l.aliasTag != "" }
+func (l *leafDef) hasAlias() bool { return l.aliasTag != "" || l.aliasGo != "" }
 func (l *leafDef) isInt() bool    { return l.kind == kInt || l.kind == kInt64 || l.kind == kUint16 }
 
 type typeDef struct {
@@ -137,7 +140,8 @@ var plainDef = typeDef{name: "plain", tagged: false, leaves: []leafDef{
 		env: "CONFIG_FILE", flag: "config-file",
 		set: func(c any, v value) { c.(*PlainCfg).ConfigFile = v.s }},
 	{name: "MaxIdle", kind: kInt, rule: rPositive, goPath: []string{"MaxIdle"}, goWords: [][]string{{"max", "idle"}},
-		env: "MAX_IDLE", flag: "max-idle",
+		aliasGo: "IdleLimit", aliasWords: []string{"idle", "limit"},
+		env: "MAX_IDLE", envAl: "IDLE_LIMIT", flag: "max-idle", flagAl: "IdleLimit", // (the flag keeps the alias text as written)
 		set: func(c any, v value) { c.(*PlainCfg).MaxIdle = int(v.i) }},
 	{name: "Grace", kind: kDur, goPath: []string{"Grace"}, goWords: [][]string{{"grace"}}, env: "GRACE", flag: "grace",
 		set: func(c any, v value) { c.(*PlainCfg).Grace = v.d }},
@@ -147,7 +151,8 @@ var plainDef = typeDef{name: "plain", tagged: false, leaves: []leafDef{
 		env: "DB_LOGIN", flag: "db-login",
 		set: func(c any, v value) { c.(*PlainCfg).DB.Login = v.s }},
 	{name: "DB.Retries", kind: kInt, rule: rNonNeg, goPath: []string{"DB", "Retries"}, goWords: [][]string{{"db"}, {"retries"}},
-		env: "DB_RETRIES", flag: "db-retries",
+		aliasGo: "RetryBudget", aliasWords: []string{"retry", "budget"},
+		env: "DB_RETRIES", envAl: "DB_RETRY_BUDGET", flag: "db-retries", flagAl: "db-RetryBudget",
 		set: func(c any, v value) { c.(*PlainCfg).DB.Retries = int(v.i) }},
 	{name: "Weight", kind: kFloat, goPath: []string{"Weight"}, goWords: [][]string{{"weight"}}, env: "WEIGHT", flag: "weight",
 		set: func(c any, v value) { c.(*PlainCfg).Weight = v.f }},
@@ -305,7 +310,14 @@ func (l *leafDef) lit(v value) string {
 }
 
 // fileKey is the key path of the leaf in a config file of the given format.
-// enc is "" (no FileFieldNameEncoder), "snake" or "kebab" (PlainCfg only).
+// enc is "" (no FileFieldNameEncoder), "snake", "kebab" or "upper"
+// (UPPER_SNAKE); PlainCfg and EmbedCfg only.
+//
+// An untagged leaf with a dialsalias (Go camel case, which is what ez's default
+// DialsTagNameDecoder DecodeGoCamelCase splits): read off the unmodified tree,
+// the alias key in the file is the alias's words in the encoder's casing
+// (IdleLimit -> idle_limit / idle-limit / IDLE_LIMIT), and without an encoder
+// the alias text as written (in every format, YAML included: it is a tag).
 // flatten is Params.FlattenAnonymousFields.
 //
 // Leaves of an embedded (anonymous, untagged) struct - layout read off the
@@ -325,6 +337,8 @@ func (l *leafDef) fileKey(format, enc string, flatten, alias bool) []string {
 				k = append(k, strings.Join(l.embedWords, "_"))
 			case enc == "kebab":
 				k = append(k, strings.Join(l.embedWords, "-"))
+			case enc == "upper":
+				k = append(k, strings.Join(l.embedWords, "_")) // upper-cased below
 			case format == "yaml":
 				k = append(k, strings.ToLower(l.embedName))
 			case format == "toml":
@@ -335,6 +349,11 @@ func (l *leafDef) fileKey(format, enc string, flatten, alias bool) []string {
 		if alias && l.aliasTag != "" {
 			k[len(k)-1] = l.aliasTag
 		}
+		if enc == "upper" {
+			for i := range k {
+				k[i] = strings.ToUpper(k[i]) // single-word tags, UPPER_SNAKE encoder
+			}
+		}
 		return k
 	}
 	k := make([]string, len(l.goPath))
@@ -344,12 +363,26 @@ func (l *leafDef) fileKey(format, enc string, flatten, alias bool) []string {
 			k[i] = strings.Join(l.goWords[i], "_")
 		case "kebab":
 			k[i] = strings.Join(l.goWords[i], "-")
+		case "upper":
+			k[i] = strings.ToUpper(strings.Join(l.goWords[i], "_"))
 		default:
 			if format == "yaml" {
 				k[i] = strings.ToLower(g) // yaml.v2's default key for an untagged field
 			} else {
 				k[i] = g
 			}
+		}
+	}
+	if alias && l.aliasGo != "" {
+		switch enc {
+		case "snake":
+			k[len(k)-1] = strings.Join(l.aliasWords, "_")
+		case "kebab":
+			k[len(k)-1] = strings.Join(l.aliasWords, "-")
+		case "upper":
+			k[len(k)-1] = strings.ToUpper(strings.Join(l.aliasWords, "_"))
+		default:
+			k[len(k)-1] = l.aliasGo
 		}
 	}
 	return k
